@@ -168,15 +168,19 @@ func c09Values() []c09Value {
 	ref("RefAnyE", "&s as auth(C.E) &AnyStruct", "auth(C.E) &AnyStruct", "auth(C.E) &AnyStruct", "auth(C.E) &C.S")
 	ref("RefArrM", "&arr as auth(Mutate) &[Int]", "auth(Mutate) &[Int]", "auth(Mutate) &[Int]", "auth(Mutate) &[Int]")
 	// containers / optionals whose run-time type nests an entitled reference
-	nest := func(name, kind, expr string) {
-		vs = append(vs, c09Value{Name: name, Setup: setup, Expr: expr, Decl: "AnyStruct", Class: "plain", Kind: kind})
+	// NOTE: boxing into AnyStruct strips the entitlements of nested references
+	// too (the run-time type becomes `[&C.S]`), so these values are held in a
+	// variable of their own container type; one boxed variant is kept.
+	nest := func(name, kind, expr, decl string) {
+		vs = append(vs, c09Value{Name: name, Setup: setup, Expr: expr, Decl: decl, Class: "plain", Kind: kind})
 	}
 	for _, a := range []struct{ n, src string }{{"EF", "auth(C.E, C.F) &C.S"}, {"EG", "auth(C.E, C.G) &C.S"}, {"EorF", "auth(C.E | C.F) &C.S"}, {"G", "auth(C.G) &C.S"}} {
-		nest("ArrRef."+a.n, "array-of-reference", "[&s as "+a.src+"]")
-		nest("DictRef."+a.n, "dictionary-of-reference", `{"a": &s as `+a.src+`}`)
-		nest("ConstArrRef."+a.n, "array-of-reference", "([&s as "+a.src+"] as ["+a.src+"; 1])")
+		nest("ArrRef."+a.n, "array-of-reference", "[&s as "+a.src+"]", "["+a.src+"]")
+		nest("DictRef."+a.n, "dictionary-of-reference", `{"a": &s as `+a.src+`}`, "{String: "+a.src+"}")
+		nest("ConstArrRef."+a.n, "array-of-reference", "[&s as "+a.src+"]", "["+a.src+"; 1]")
 	}
-	nest("ArrOptRef.EF", "array-of-reference", "([&s as auth(C.E, C.F) &C.S] as [(auth(C.E, C.F) &C.S)?])")
+	nest("ArrOptRef.EF", "array-of-reference", "[&s as auth(C.E, C.F) &C.S]", "[(auth(C.E, C.F) &C.S)?]")
+	nest("ArrRef.EF.boxed", "array-of-reference", "[&s as auth(C.E, C.F) &C.S]", "AnyStruct")
 	// resources
 	res := func(name, kind, expr string) {
 		vs = append(vs, c09Value{Name: name, Expr: expr, Decl: "@AnyResource", Resource: true, Class: "plain", Kind: kind})
